@@ -26,7 +26,8 @@ SPEC = dict(
          "(FakeSock transport, handleStart, <stream:features/>, <resume/> answered <resumed/> or <failed/>, bind, <enable/> answered "
          "<enabled resume?/>, loss via _q_socketDisconnected, orderly disconnectFromHost) with requests outstanding: exhaustive to "
          "depth 5 / 6 over {send, reply, loss, reconnect+resumed, reconnect+failed+new SM session, reconnect+session without SM, orderly "
-         "disconnect, begin of a connection attempt (transport up, stream started, no session), attempt aborted by the client during "
+         "disconnect through every route that calls disconnectFromHost() (disconnectFromServer, server </stream:stream>, rejected element, "
+         "keep-alive timeout, direct) on a socket stand-in whose disconnectFromHost() emits disconnected() synchronously, begin of a connection attempt (transport up, stream started, no session), attempt aborted by the client during "
          "negotiation (unexpected element -> disconnectFromHost -> socket disconnect without a session)} plus random (also non-resumable SM session, stranger reply); model side = Neg layer (connect(sm,resumable,resumed), "
          "loss, disconnect); oracle judges by what the scripted server answered, never by client flags. (E) QXmppBlockingManager::"
          "fetchBlocklist (shared IQ, promise list, cache): exhaustive to depth 6 / 7 over {fetch, IQ result, IQ error, new session, resumed "
